@@ -61,6 +61,8 @@ type kase struct {
 	inmSet      bool
 	dct         string
 	rf          bool
+	recMode     int // 0 = no recorder, 1..3 = rr mode 0..2
+	firstToEnc  []byte
 	ops         []op
 }
 
@@ -549,7 +551,11 @@ func (k *kase) runRecorded(ops []op) (*rec, *scriptResult, error) {
 	next := caddyhttp.HandlerFunc(func(w http.ResponseWriter, req *http.Request) error {
 		res.inmSeen = req.Header.Values("If-None-Match")
 		res.wrapped = fmt.Sprintf("%T", w) == "*encode.responseWriter"
-		replay(ops, w, res)
+		if k.recMode > 0 {
+			k.firstToEnc = replayThroughRecorder(ops, w, k.recMode-1, res)
+		} else {
+			replay(ops, w, res)
+		}
 		// Unwrap pass-through: a handler behind encode can still take the connection (WebSocket upgrade)
 		if _, _, herr := http.NewResponseController(w).Hijack(); herr != errRecHijack || r.hijacks != 1 {
 			res.hijackFault = fmt.Sprintf("ResponseController.Hijack() through %T: error %v, the wrapped writer was asked %d time(s)", w, herr, r.hijacks)
@@ -608,7 +614,18 @@ func (p *prop) Run(line string) core.Outcome {
 	} else if len(f) == 9 && f[0] == "px" {
 		return p.runPx(f)
 	}
+	recMode := 0
+	if strings.HasPrefix(line, "rr ") {
+		m, rest, ok := splitRr(line)
+		if !ok {
+			return core.Outcome{Impl: "bad-op", Tags: []string{"bad-op", "trivial"}}
+		}
+		recMode, line = m, rest
+	}
 	k, ok := parseCase(line)
+	if ok {
+		k.recMode = recMode
+	}
 	if !ok {
 		return core.Outcome{Impl: "bad-op", Tags: []string{"bad-op", "trivial"}}
 	}
@@ -642,6 +659,14 @@ func (p *prop) Run(line string) core.Outcome {
 	dctWant := ""
 	if fp := firstPayload(k.ops); fp != nil {
 		dctWant = http.DetectContentType(fp)
+	}
+	if k.recMode > 0 {
+		// behind a recorder the encode writer sees the recorder's calls: a buffered body arrives as one Write
+		dctWant = ""
+		if fp := recorderFirstPayload(k.ops, k.recMode-1); fp != nil {
+			dctWant = http.DetectContentType(fp)
+		}
+		o.Tags = append(o.Tags, fmt.Sprintf("rr:mode-%d", k.recMode-1))
 	}
 	if dctWant != k.dct && o.Impl != "bad-op" {
 		// the line lies about what the external function returns on its own payload (never generated;
